@@ -243,6 +243,24 @@ def Payload.setMemberWF (e : Ty) : Payload → Bool
   | .sset ids vs => Payload.setWF e ids vs
   | _ => false
 
+mutual
+/-- every set node of the value, at any depth, is well-formed (`Payload.setWF`) -/
+def Payload.deepWF : Ty → Payload → Bool
+  | .list e, .seq vs => Payload.deepWFAll e vs
+  | .tuple ts, .seq vs => Payload.deepWFZip ts vs
+  | .map e, .smap _ vs => Payload.deepWFAll e vs
+  | .object _ ts _, .smap _ vs => Payload.deepWFZip ts vs
+  | .set e, .sset ids vs => Payload.setWF e ids vs && Payload.deepWFAll e vs
+  | _, _ => true
+termination_by structural _ p => p
+def Payload.deepWFAll : Ty → List Payload → Bool
+  | _, [] => true
+  | e, v :: vs => Payload.deepWF e v && Payload.deepWFAll e vs
+def Payload.deepWFZip : List Ty → List Payload → Bool
+  | t :: ts, v :: vs => Payload.deepWF t v && Payload.deepWFZip ts vs
+  | _, _ => true
+end
+
 /-! ### capsule types -/
 
 /-- The operations of a capsule type that `Equals`, `RawEquals` and the set hash
